@@ -648,3 +648,53 @@ theorem readString_line (body : List Nat) (st : LexState) (start : Nat)
   exact readStringLoop_line body st start (start + 1) (start + 1) [] (by omega) n0
 
 end Gql.Text
+
+/-! Part 4: the line invariant. -/
+namespace Gql.Text
+open Spec
+
+/-- The lexer's bookkeeping agrees with the prefix scan at offset `p`. -/
+def LineInv (body : List Nat) (st : LexState) (p : Nat) : Prop :=
+  st.line = 1 + (pre body p).1 ∧ st.lineStart + (pre body p).2 = p
+
+theorem not_inside_succ (body : List Nat) (p : Nat) (hl : p < body.length)
+    (h : body[p] ≠ 13) : ¬ insideCRLF body (p + 1) := by
+  intro ⟨_, h1, _⟩
+  simp only [Nat.add_sub_cancel] at h1
+  rw [List.getElem?_eq_getElem hl] at h1
+  exact h (Option.some.inj h1)
+
+theorem pre_nonl (body : List Nat) (p : Nat) (hin : ¬ insideCRLF body p) :
+    ∀ n q, q = p + n → q ≤ body.length → NoNL body p q →
+      pre body q = ((pre body p).1, (pre body p).2 + n) ∧ ¬ insideCRLF body q := by
+  intro n
+  induction n with
+  | zero => intro q hq _ _; subst hq; simp [hin]
+  | succ n ih =>
+    intro q hq hl hn
+    have hq' : p + n < body.length := by omega
+    obtain ⟨e, hi⟩ := ih (p + n) rfl (by omega) (fun i a b c hc => hn i a (by omega) c hc)
+    have hc := hn (p + n) (by omega) (by omega) body[p + n] (List.getElem?_eq_getElem hq')
+    subst hq
+    have := pre_step body (p + n) body[p + n] (List.getElem?_eq_getElem hq') hi
+    rw [if_neg (by intro h; rcases h with h | h <;> simp [h] at hc)] at this
+    refine ⟨?_, not_inside_succ body (p + n) hq' hc.2⟩
+    rw [show p + (n + 1) = p + n + 1 by omega, this, e]
+    simp only [Prod.mk.injEq, true_and]; omega
+
+theorem lineInv_tok {body : List Nat} {st : LexState} {start : Nat} {t : Token}
+    (hi : LineInv body st start) (hin : ¬ insideCRLF body start) (hs : start ≤ body.length)
+    (ht : TokLine body st start t) :
+    (t.line, t.column) = lineCol body t.start ∧ LineInv body st t.stop ∧
+      ¬ insideCRLF body t.stop ∧ t.stop ≤ body.length := by
+  obtain ⟨h1, h2, h3, h4, h5, h6⟩ := ht
+  obtain ⟨e, hi'⟩ := pre_nonl body start hin (t.stop - start) t.stop (by omega) h5 h6
+  refine ⟨?_, ?_, hi', h5⟩
+  · rw [h1, lineCol_eq_pre body start hs hin, h2, h3, hi.1]
+    have := hi.2
+    congr 1; omega
+  · constructor
+    · rw [e]; exact hi.1
+    · rw [e]; have := hi.2; simp; omega
+
+end Gql.Text
